@@ -331,6 +331,7 @@ class FieldCodeGenerator:
             return
 
         if self._context.reached_optional_field:
+            self._data.needs_reached_missing_optional_variable = True
             self._data.serialize.add_line(
                 f"reached_missing_optional = reached_missing_optional or data._{self._name} is None"
             )
